@@ -86,6 +86,13 @@ class ModPrinter:
             return f"(XSig {self.leaf_id(('r', e[1], e[2]), f'LRef {cstr(e[1])} {cstr(e[2])}')}%N {cz(w)})"
         if t == "nc":
             return f"(XSig {self.leaf_id(('n', e[1]), f'LNc {e[1]}%N')}%N {cz(ncw)})"
+        if t == "orphan":
+            return f"(XSig {self.leaf_id(('o', e[1]), 'LSig \"?orphan\"')}%N {cz(e[1])})"
+        if t == "foreign":
+            w = sig_width(self.design["mods"][e[1]], e[2])
+            return f"(XSig {self.leaf_id(('f', e[1], e[2]), 'LSig \"?foreign\"')}%N {cz(w or 1)})"
+        if t == "foreignref":
+            return f"(XSig {self.leaf_id(('fr', e[1], e[2], e[3]), 'LRef \"?foreign\" ' + cstr(e[3]))}%N {cz(ncw)})"
         if t == "sl":
             return f"(XSlice {self.expr(e[1], ncw)} {c_index(e[2])})"
         if t == "cat":
@@ -107,7 +114,7 @@ class ModPrinter:
         insts = clist(md["insts"], self.inst)
         leaves = clist(sorted(self.leaves.values()), lambda l: f"({l[0]}%N, {l[1]})")
         pw = lambda p: f"({cstr(p[0])}, {cz(p[1])})"
-        return (f"{{| m_name := {cstr(md['name'])}; m_ports := {clist(md['ports'], pw)}; m_sigs := {clist(md['sigs'], pw)};\n"
+        return (f"{{| m_name := {cstr(md['name'] or '')}; m_ports := {clist(md['ports'], pw)}; m_sigs := {clist(md['sigs'], pw)};\n"
                 f"     m_insts := {insts};\n     m_leaves := {leaves} |}}")
 
 
